@@ -18,6 +18,7 @@ from .parser import Parser
 from .ranges import Ranges, _assemble_values, _shape, _get_indices_intersection
 from .tokens.operand import Error, XlError, range2parts, _re_ref, _index2col
 from .functions import replace_empty
+from . import _verif
 
 CELL = sh.Token('Cell')
 
@@ -31,6 +32,10 @@ class CellWrapper(sh.add_args):
         self.parse_kwargs = parse_kwargs
 
     def __call__(self, *args, **kwargs):
+        if _verif.ON: _verif.emit(
+            'fire', name=self.func.__name__,
+            inputs=[_verif.digest(a) for a in args]
+        )
         try:
             return self.func(
                 *self.parse_args(*args), **self.parse_kwargs(**kwargs)
@@ -70,6 +75,9 @@ def wrap_cell_func(func, parse_args=lambda *a: a, parse_kwargs=lambda **kw: kw):
 
 
 def format_output(rng, value):
+    if _verif.ON: _verif.emit(
+        'set', node=rng.get('name'), value=_verif.digest(value)
+    )
     return Ranges().set_value(rng, value)
 
 
@@ -286,6 +294,11 @@ class RangesAssembler:
         return '=%s' % self.output
 
     def __call__(self, *cells):
+        if _verif.ON: _verif.emit(
+            'assemble', node=self.output, inputs=[
+                k if isinstance(k, str) else str(k) for k in self.inputs
+            ]
+        )
         base = self.range.ranges[0]
         if sh.SELF in self.inputs:
             out = np.empty(_shape(**base), object)
@@ -322,6 +335,10 @@ class InvRangesAssembler(RangesAssembler):
         return f'INV({self.assembler.output})'
 
     def __call__(self, value, dsp=None):
+        if _verif.ON: _verif.emit(
+            'distribute', node=self.assembler.output,
+            outputs=list(self.assembler.outputs)
+        )
         res = []
         base = self.assembler.range.ranges[0]
         sheet_id = base['sheet_id']
